@@ -21,6 +21,12 @@ E2_OBSERVABLE = {"name": "e2-observable", "engine": "e2", "harness": ["observabl
 
 E2_ROUTER = {"name": "e2-router", "engine": "e2", "harness": ["router_seq.cc"], "repo_src": _ROUTER_SRC}
 
+E2_FILE = {"name": "e2-file", "engine": "e2", "harness": ["file.cc"], "repo_src": ["src/File.cpp", "src/Path.cpp", "src/Exception.cpp"]}
+
+E2_PATH = {"name": "e2-path", "engine": "e2", "harness": ["path.cc"], "repo_src": ["src/Path.cpp", "src/DirectoryVisitor.cpp", "src/Exception.cpp"]}
+
+E2_LOCALE = {"name": "e2-locale", "engine": "e2", "harness": ["locale.cc"], "repo_src": ["src/LocaleInfo.cpp"]}
+
 MC = "model_checking"
 
 CHECKS = {
@@ -35,6 +41,9 @@ CHECKS = {
     "C16": {"level": MC, "runs": [{"binary": E2_OBSERVABLE, "flavour": "asanub"}]},
     "C06": {"level": MC, "runs": [{"binary": E2_ROUTER, "flavour": "asan"}]},
     "C13": {"level": MC, "runs": [{"binary": E2_ROUTER, "flavour": "asan"}]},
+    "C17": {"level": MC, "runs": [{"binary": E2_FILE, "flavour": "asanub"}]},
+    "C18": {"level": MC, "runs": [{"binary": E2_PATH, "flavour": "asanub"}]},
+    "C19": {"level": MC, "runs": [{"binary": E2_LOCALE, "flavour": "asanub"}]},
     "C07": {"level": MC, "runs": [{"binary": E1_POOL, "flavour": "plain"}, {"binary": E1_POOL, "flavour": "asan", "args": ["--max-bound", "1"]}]},
     "C08": {"level": MC, "runs": [{"binary": E1_POOL, "flavour": "plain"}]},
     "C15": {"level": MC, "runs": [{"binary": E1_RACE, "flavour": "tsan"}]},
@@ -86,6 +95,40 @@ META = {
             "text": "2-4 threads with one or two router operations each (notify with wildcard/regex/concrete patterns, subscribe, USubscription::unsubscribe, shrink, exists, depth) collide on the same keys of a pre-populated ConcurrentSubjectRouter; callbacks contain scheduling points. "
                     "For every schedule within the bound the recorded results (callbacks made per notify, return values) must be explained by some sequential order consistent with the call/return order; no callback after unsubscribe() returned; ASan flavour for use-after-free.",
             "note": _E1_NOTE + " The sequential SubjectRouter is the reference for linearizability (its own behaviour is decided by C06/C13)."},
+    "C05": {"engine": "seqx", "design_ref": "DESIGN.md §4 C05", "technique": "explicit-state model checking of the implementation: breadth-first search over operation histories to fixpoint against a list model, ASan",
+            "text": "Breadth-first search to fixpoint over histories of subscribe (lambda, SelfView lambda, unique_ptr, raw pointer), unsubscribe through handle and subject, unsubscribe of stale/empty/foreign handles (must throw, state unchanged), mute, unmute, invalidate, "
+                    "handle move-assign/move-construct and notify on one real Subject with 3 handle slots, for the signatures <>, <int>, <const std::string&>, <std::string,int>; states keyed by the implementation's observer list with rank-normalised ids. "
+                    "Every notify must invoke exactly the subscribed, valid, unmuted observers in subscription order with the passed values; handle validity/mute state and observer object lifetimes (destroyed exactly once) are checked in every state.",
+            "note": _E2_NOTE},
+    "C06": {"engine": "seqx", "design_ref": "DESIGN.md §4 C06", "technique": "explicit-state model checking of the implementation: breadth-first search over router histories, every probe pattern notified in every state against an independent matcher, ASan",
+            "text": "Router contents are explored breadth-first to fixpoint (subscribe, unsubscribe, invalidate+notify, self-invalidating callbacks, shrink) over a key universe with equal names at different levels and names that are prefixes of others; in every distinct state "
+                    "all 258 patterns (literal, wildcard, regex levels, depth 1..3) are notified and the invoked observers, multiplicities, received values and the return count are compared with a hand-written level-by-level matcher; for SubjectRouter and single-threaded "
+                    "ConcurrentSubjectRouter and five argument signatures including by-value class types.",
+            "note": _E2_NOTE},
+    "C10": {"engine": "seqx", "design_ref": "DESIGN.md §4 C10", "technique": "bounded-exhaustive enumeration of re-entrant callback programs on the implementation under ASan, compared with a reference simulation of the rounds",
+            "text": "For 1..3 (thorough 4) observers every assignment of one action per callback (subscribe new, unsubscribe/mute/unmute/invalidate any target incl. itself, nested notify up to depth 2) and every relevant initial mute mask is run for two rounds on the real Subject "
+                    "under AddressSanitizer; the recorded call log must be explained by the round semantics of the property (membership fixed at entry, removed-before-turn skipped, added-during-round first called next round); what the property leaves open is left open.",
+            "note": _E2_NOTE},
+    "C13": {"engine": "seqx", "design_ref": "DESIGN.md §4 C13", "technique": "explicit-state model checking of the implementation: breadth-first search over router histories with shrink transitions checked against removal rules, exists/depth against the stored key set",
+            "text": "The C06 state graph with shrink(p) for ~60 concrete, regex and wildcard patterns as transitions: after every shrink deliveries for the whole probe set are unchanged (compared with the model in the new state), no key with a live subscription at or below it disappears, "
+                    "every removed key's parent lies along the pattern, a full-depth wildcard shrink leaves exactly the keys that lead to an observer; in every state exists(pattern) for all 258 patterns and depth() agree with the stored, prefix-closed key set.",
+            "note": _E2_NOTE},
+    "C16": {"engine": "seqx", "design_ref": "DESIGN.md §4 C16", "technique": "explicit-state model checking of the implementation: breadth-first search over operator histories with state merging on (value, subscribers)",
+            "text": "Histories of =, +=, -=, *=, /=, ++x, x++, --x, x--, apply (identity/set/add), subscribe and unsubscribe (2 subscriber slots) are explored breadth-first to depth 6 (thorough 8) from several initial values for Observable<int>, "
+                    "Observable<float, NearEq(0.5)> and Observable<std::string>; after every step the notifications each subscriber received (exactly one with the post-value iff !eq(old,new); always for ++/--), return values and value() are compared with the model.",
+            "note": _E2_NOTE},
+    "C17": {"engine": "seqx", "design_ref": "DESIGN.md §4 C17", "technique": "bounded-exhaustive enumeration of inputs and call sequences on the implementation against a byte-vector-with-position model (real files on tmpfs, ASan)",
+            "text": "Every byte string of length <= 4 (thorough 5) over {00,FF,CR,LF,'a',1A} x every split into write calls, every write/append mode onto {nothing, existing file} through all three write overloads, read back in both read modes through read(), readStr(), size() "
+                    "and chunked read(); large patterned files across stdio buffer boundaries; every sequence of <= 3 (thorough 4) seek/tell/size/read calls against a position model and std::filesystem; NotFound/NotFile errors.",
+            "note": _E2_NOTE + " The kernel's tmpfs is the environment; I/O errors are not injected."},
+    "C18": {"engine": "seqx", "design_ref": "DESIGN.md §4 C18", "technique": "bounded-exhaustive enumeration of directory configurations and path strings on the implementation against std::filesystem (tmpfs, ASan)",
+            "text": "Every directory forest with <= 4 (thorough 5) entries, depth <= 3, files of 0/1/4097 bytes and names with spaces, dots and non-ASCII bytes is created; exists/isFile/isDirectory/size/listChildren of every node and of missing siblings (absolute, relative, ./, trailing separator) "
+                    "are compared with std::filesystem; DirectoryVisitor is checked for every directory (absolute/relative/nested/missing/unused/explicit restore); join/getPathName/getParentDirectory identities for every path of <= 3 segments with leading/trailing/doubled separators.",
+            "note": _E2_NOTE + " No symlinks or special files; process runs as root."},
+    "C19": {"engine": "seqx", "design_ref": "DESIGN.md §4 C19", "technique": "complete enumeration of a structured bounded input space on the implementation under ASan, compared with an independent parser over the public tables",
+            "text": "All language codes and names x all country codes and names x four suffixes (~0.8M strings), every string of length <= 6 (thorough 7) over {e,n,G,B,_,.,x}, and language/country parts of every length 0..80 across the 64-byte buffer with delimiters in every order; "
+                    "each result is compared with an independent reading of 'language_COUNTRY[.charset]' (code, all names in table order, pointer identity with table entries; otherwise the documented fallback with error set).",
+            "note": _E2_NOTE},
     "C07": {"engine": "vsched", "design_ref": "DESIGN.md §4 C07", "technique": "stateless model checking of the implementation: exhaustive preemption-bounded schedule enumeration, task life-cycle oracle over the event log",
             "text": "Every schedule (owner + workers, every notify_one target) with <= c preemptions of owner scripts over start/clear/stop/wait with 1-4 instrumented tasks and 1-3 workers runs on the real ThreadPool, plain and under AddressSanitizer. "
                     "Per task: run at most once, destroyed exactly once and never before/during run; run exactly once unless cleared/stopped first (a lost task deadlocks the owner's wait); nothing runs after stop() returned; one worker runs in submission order.",
